@@ -690,12 +690,19 @@ start:
 	}
 
 	processPhis := func(b *ir.BasicBlock, i int, s state) state {
+		// Phis are parallel copies: all of them read their operands before
+		// any of them is assigned. Reading after earlier phis have been
+		// updated would get 'a, b = b, a' in a loop wrong.
+		var vals []ValueNilness
 		for _, instr := range b.Instrs {
 			if instr, ok := instr.(*ir.Phi); ok {
-				s.set(instr, s.get(instr.Edges[i]))
+				vals = append(vals, s.get(instr.Edges[i]))
 			} else {
 				break
 			}
+		}
+		for j, instr := range b.Instrs[:len(vals)] {
+			s.set(instr.(*ir.Phi), vals[j])
 		}
 		return s
 	}
